@@ -294,9 +294,17 @@ func (e *Exec) execRange(s *ast.RangeStmt, label string, st *State, ctx *Ctx, k 
 				kind = rkInt
 			}
 		}
-		if kind != rkOpaque {
+		if id, ok := s.X.(*ast.Ident); ok && kind == rkOpaque && id.Name == "formatByExtension" {
+			if v, ok := info.ObjectOf(id).(*types.Var); ok && v.Pkg() != nil && v.Parent() == v.Pkg().Scope() {
+				// the format table: its keys are the names k with fmtByName(k) != 0 (fmtTable is fmtByName as an array)
+				kind = rkRMap
+				coll = "fmtTable"
+				e.note("range over formatByExtension visits exactly the names k with fmtByName(k) != 0, in any order (definition of fmtByName; the table's content is pinned by the C05 format-table obligations)")
+			}
+		}
+		if kind != rkOpaque && coll == "" {
 			coll = e.eval(s.X, st, ctx)
-		} else {
+		} else if kind == rkOpaque {
 			if _, isCall := s.X.(*ast.CallExpr); !isCall {
 				e.eval(s.X, st, ctx)
 			}
